@@ -509,7 +509,7 @@ def goal_behaviours(ctx, users, sess, topics, names=None, maxsubs=3, marks=False
                      "\nINIT Init\nNEXT Next\nINVARIANT NotGoal\nVIEW StView\nCHECK_DEADLOCK FALSE\n")
         tj = os.path.join(ctx.scratch, mod + "_cex.json")
         for attempt in (1, 2, 3):
-            r = ctx.tlc(mod, workers=4, timeout=300, extra=["-dumpTrace", "json", tj])
+            r = ctx.tlc(mod, workers=1, timeout=600, extra=["-dumpTrace", "json", tj])   # one worker: the same (first shortest) witness every run
             if os.path.exists(tj):
                 break
             if "No error has been found" in r.out:
@@ -524,7 +524,7 @@ def goal_behaviours(ctx, users, sess, topics, names=None, maxsubs=3, marks=False
         return name, steps + tail
 
     out = {}
-    with concurrent.futures.ThreadPoolExecutor(max_workers=4) as ex:
+    with concurrent.futures.ThreadPoolExecutor(max_workers=8) as ex:
         for name, beh in ex.map(one, names):
             if beh:
                 out[name] = beh
